@@ -82,6 +82,9 @@ type Iface struct {
 // nil iff ID == 0.
 type Err struct{ ID, Root string }
 
+// MapV is a Go map created in the function under verification (engine/maps.go).
+type MapV struct{ ID int }
+
 type Fn struct {
 	F    *ssa.Function
 	Bind []Val
